@@ -6,6 +6,7 @@ import QsmtpModel.Lemmas.Relay
 import QsmtpModel.Relay
 import QsmtpModel.Props.C16
 import QsmtpModel.Props.C08
+import QsmtpModel.Lemmas.TlsClient
 
 namespace QsmtpModel.Props.C01
 open QsmtpModel QsmtpModel.Session QsmtpModel.Relay
@@ -87,5 +88,52 @@ example : (smtpRcpt {} (.remote [120] .found false .accept) { comstate := 0x20, 
   decide
 example : (smtpRcpt { relayIp := .listed } (.remote [120] .found false .accept)
     { comstate := 0x20, mailfrom := [97] }).replies = [250] := by decide
+
+/-! ### The certificate branch: `tls_verify()` / `tls_check_cert()` (model `TlsClient`)
+
+In the session theorems above the answer of `tls_verify()` is a verdict (`env.tlsVerify`); these
+theorems say when the function itself can give the verdict "entitled". -/
+
+/-- **Relaying by certificate only for a listed name.**  `tls_verify()` answers "entitled" (a positive
+value) only if there is a TLS session, the client is not authenticated yet, control/clientca.pem could
+be loaded, the (re)handshake gave a certificate whose chain verified, and the certificate's name — the
+subject's emailAddress if it has one, else its commonName — is, byte for byte and without any NUL
+inside, one of the entries that the control file loader keeps of control/tlsclients.  That name is
+what is recorded as `xmitstat.tlsclient`.  For every file content, certificate and handshake outcome. -/
+theorem cert_relay_only_if_listed (hasSsl done authed : Bool) (fs : Control.FileState) (ca : Bool)
+    (peer : TlsClient.Peer) (r : Int) (tc : Option (List Byte)) (w d' : Bool)
+    (h : TlsClient.tlsVerify hasSsl done authed fs ca peer = (.ret r tc w, d')) (hr : 0 < r) :
+    hasSsl = true ∧ done = false ∧ authed = false ∧ ca = true ∧
+    ∃ c clients, peer = .cert c ∧ c.verifyOk = true ∧
+      Control.loadlistFile (some TlsClient.rejectEntry) fs = .ok (.ok clients) ∧
+      TlsClient.nameField c ∈ clients ∧ (0 : Byte) ∉ TlsClient.nameField c ∧ tc = some (TlsClient.nameField c) := by
+  unfold TlsClient.tlsVerify at h
+  split at h
+  · simp only [Prod.mk.injEq, TlsClient.Out.ret.injEq] at h; omega
+  · rename_i hg
+    simp only [Bool.or_eq_true, Bool.not_eq_true', not_or, Bool.not_eq_false, Bool.not_eq_true] at hg
+    split at h
+    · simp at h
+    · simp only [Prod.mk.injEq, TlsClient.Out.ret.injEq] at h; omega
+    · simp only [Prod.mk.injEq, TlsClient.Out.ret.injEq] at h; omega
+    · rename_i clients hl
+      split at h
+      · simp only [Prod.mk.injEq, TlsClient.Out.ret.injEq] at h; omega
+      · rename_i hca
+        simp only [Prod.mk.injEq] at h
+        obtain ⟨c, hp, hv, _, hm, hn, htc, _⟩ := TlsClient.checkCert_pos clients peer r tc w h.1 hr
+        exact ⟨hg.1.1, hg.1.2, hg.2, by simpa using hca, c, clients, hp, hv, hl, hm, hn, htc⟩
+
+/-- a name that is only a prefix of an entry, or that continues behind an entry after a NUL, does not
+entitle; the exact name does (evaluations: control/tlsclients = "a@b.de\n") -/
+example : (TlsClient.tlsVerify true false false (.content [97, 64, 98, 46, 100, 101, 10]) true
+    (.cert { verifyOk := true, email := none, cn := some [97, 64, 98, 46, 100] })).1 = .ret 0 none false := by decide
+example : (TlsClient.tlsVerify true false false (.content [97, 64, 98, 46, 100, 101, 10]) true
+    (.cert { verifyOk := true, email := some [97, 64, 98, 46, 100, 101, 0, 64, 120], cn := none })).1 = .ret 0 none false := by decide
+example : (TlsClient.tlsVerify true false false (.content [97, 64, 98, 46, 100, 101, 10]) true
+    (.cert { verifyOk := false, email := some [97, 64, 98, 46, 100, 101], cn := none })).1 = .ret 0 none false := by decide
+example : (TlsClient.tlsVerify true false false (.content [97, 64, 98, 46, 100, 101, 10]) true
+    (.cert { verifyOk := true, email := some [97, 64, 98, 46, 100, 101], cn := some [120] })).1
+      = .ret 1 (some [97, 64, 98, 46, 100, 101]) false := by decide
 
 end QsmtpModel.Props.C01
